@@ -295,6 +295,10 @@ func (it *Interp) concInt(v Value) int {
 }
 
 func (it *Interp) rtPanic(msg string) {
+	if it.curInstr != nil && it.curInstr.Pos().IsValid() {
+		pos := it.prog.Fset.Position(it.curInstr.Pos())
+		msg += fmt.Sprintf(" [%s:%d]", pos.Filename[strings.LastIndex(pos.Filename, "/")+1:], pos.Line)
+	}
 	panic(goPanic{V: Iface{T: types.Typ[types.String], V: it.strVal("runtime error: " + msg)}, Msg: "runtime error: " + msg})
 }
 
